@@ -94,6 +94,10 @@ def gen(rng, tier, index):
         else:
             stack = rng.randrange(16398, 65536)
         stack = max(16398, min(65535, stack))
+        # the 14 stack bytes must not lie on bin2tap's own 19-byte loader in the printer buffer (23296-23314): the
+        # loader's PUSH would overwrite the loader itself.  The man page is silent; no placement of the loader could work.
+        if 23296 < stack <= 23314 + 14:
+            stack = rng.choice((23296, 23329, 23330, rng.randrange(23329, 65536)))
         # tap2sna stops the simulation the first time PC equals --start: a start address inside bin2tap's own
         # 20-byte loader at 23296 would stop it before the data block is loaded (inherent to stopping at an address)
         while 23296 <= start < 23316:
